@@ -25,7 +25,7 @@ RULE = (
     "panel, parse_source AST equality and generated-text equality; W5 every thread builds its own revisions of one "
     "experiment name (unique labels per construction); W2 concurrent calls on shared evaluators; W3 one "
     "evaluator toggled between texts A and B by a recompiler while callers evaluate (result must be A(x) or B(x)); W4 "
-    "failing recompiles racing with calls (callers keep seeing A). distinct_nontrivial = distinct (run, thread, op) "
+    "failing recompiles racing with calls (callers keep seeing A); W6 all of it at once. distinct_nontrivial = distinct (run, thread, op) "
     "results produced by worker threads that were released together by a barrier and ran concurrently (evidence of real "
     "overlap is reported separately: threads simultaneously inside parse_source, cross-thread switches between line events)."
 )
@@ -202,13 +202,15 @@ def run(ctx):
     old_interval = sys.getswitchinterval()
     sys.setswitchinterval(1e-6)
     inter = Interleaver()
-    nruns = ctx.n(20, 14 * 40)
+    nruns = ctx.n(24, 14 * 48)
     total_overlap = total_calls = 0
     try:
         for run_i in range(nruns):
             nthreads = rnd.choice([2, 4, 8, 16])
             inject = run_i % 2 == 1
-            workload = ["W1", "W5", "W2", "W3", "W4"][run_i % 5] if run_i % 10 < 5 else rnd.choice(["W1", "W1", "W5", "W5", "W2", "W3", "W3", "W4"])
+            workload = ["W1", "W5", "W2", "W3", "W4", "W6"][run_i % 6] if run_i % 12 < 6 else rnd.choice(["W1", "W1", "W5", "W5", "W2", "W3", "W3", "W4", "W6"])
+            if workload == "W6":
+                nthreads = max(nthreads, 4)
             ops = (8 if inject else 30) if ctx.quick() else (12 if inject else 60)
             logs = [[] for _ in range(nthreads)]
             errors = [[] for _ in range(nthreads)]
@@ -261,6 +263,54 @@ def run(ctx):
                                     logs[ti].append((k, "same-name-revision", text, got == want, None if got == want else got[:3]))
                                 except Exception as e:  # noqa: BLE001
                                     errors[ti].append((k, text, type(e).__name__, str(e)[:160]))
+                        return work
+                elif workload == "W6":
+                    # everything at once: thread 0 toggles one shared evaluator between A and B, threads 1-2 construct,
+                    # the others call the toggled evaluator and a pool of stable shared evaluators
+                    evs = {t: im.Evaluator(t) for t in SOURCES}
+                    ev_ab = im.Evaluator(TEXT_A)
+                    shared["stop"] = False
+                    shared["swaps"] = 0
+
+                    def make(ti):
+                        r = random.Random(seed + ti)
+
+                        def work():
+                            start.wait()
+                            try:
+                                if ti == 0:
+                                    cur = TEXT_A
+                                    for k in range(ops * 2):
+                                        cur = TEXT_B if cur == TEXT_A else TEXT_A
+                                        ev_ab.recompile(cur)
+                                        shared["swaps"] += 1
+                                    shared["stop"] = True
+                                elif ti in (1, 2):
+                                    k = 0
+                                    while not shared["stop"] and k < ops * 4:
+                                        text = r.choice(SOURCES)
+                                        ev = im.Evaluator(text)
+                                        got = [im.call(ev, e) for e in PANEL]
+                                        logs[ti].append((k, "construct+panel", text, got == ref[text]["panel"], None if got == ref[text]["panel"] else got[:3]))
+                                        k += 1
+                                else:
+                                    k = 0
+                                    while not shared["stop"] and k < ops * 300:
+                                        j = r.randrange(len(PANEL))
+                                        if k % 2:
+                                            got = im.call(ev_ab, PANEL[j])
+                                            allowed = [ref[TEXT_A]["panel"][j], ref[TEXT_B]["panel"][j]]
+                                            ok = got in allowed
+                                            logs[ti].append((k, "racing-call", "W6", ok, None if ok else (got, allowed)))
+                                        else:
+                                            text = r.choice(SOURCES)
+                                            got = im.call(evs[text], PANEL[j])
+                                            ok = got == ref[text]["panel"][j]
+                                            logs[ti].append((k, "shared-call", text, ok, None if ok else got))
+                                        k += 1
+                            except Exception as e:  # noqa: BLE001
+                                errors[ti].append((0, workload, type(e).__name__, str(e)[:160]))
+                                shared["stop"] = True
                         return work
                 elif workload == "W2":
                     evs = {t: im.Evaluator(t) for t in SOURCES}
